@@ -221,6 +221,171 @@ func main() {
 		e := genField(r) + genField(r)
 		t.Q("enc "+lib.X(e), lib.X(ixkey.Encode(e)))
 	}
+	splitSection(t, r, n)
+	lowerSection(t, r, n)
+}
+
+// joinAll is the composite encoding of vals with every field present (also for one field)
+func joinAll(vals []string) string {
+	var sb strings.Builder
+	for i, v := range vals {
+		if i > 0 {
+			sb.WriteString(ixkey.Sep)
+		}
+		sb.WriteString(ixkey.Encode(v))
+	}
+	return sb.String()
+}
+
+// splitSection: SplitPrefixSuffix / JoinPrefixSuffix on keys of 2..6 fields with many empty
+// fields (runs of empties inside the prefix, at its end, at the end of the key).
+// Direct oracle: for a key with more than n (trimmed) fields the prefix is the canonical key
+// (CompKey) of the first n fields and the suffix the encoding of the rest; otherwise the whole
+// key and ""; Join(Split(k)) == k.
+func splitSection(t *lib.Trace, r *rand.Rand, n int) {
+	for c := 0; c < n/2; c++ {
+		nf := 2 + r.Intn(5)
+		vals := make([]string, nf)
+		for j := range vals {
+			if r.Intn(2) == 0 {
+				vals[j] = genField(r)
+			}
+		}
+		if r.Intn(3) != 0 && vals[nf-1] == "" {
+			vals[nf-1] = string(alphabet[1+r.Intn(len(alphabet)-1)]) // non-empty last field
+		}
+		key := ixkey.CompKey(vals...)
+		tv := trim(vals)
+		sn := 1 + r.Intn(nf)
+		p, s := ixkey.SplitPrefixSuffix(key, sn)
+		t.Q(fmt.Sprintf("split %s %d", lib.X(key), sn), lib.X(p)+" "+lib.X(s))
+		wantP, wantS := key, ""
+		if sn < len(tv) {
+			wantP, wantS = ixkey.CompKey(tv[:sn]...), joinAll(tv[sn:])
+			trailing := 0
+			for j := sn - 1; j >= 0 && tv[j] == ""; j-- {
+				trailing++
+			}
+			t.Count(fmt.Sprintf("split.prefix-trailing-empties=%d", min(trailing, 3)))
+		} else {
+			t.Count("split.short-key")
+		}
+		if p != wantP || s != wantS {
+			t.Fail("split-prefix", fmt.Sprintf("fields %q key %q n=%d: prefix %q suffix %q, want %q %q",
+				vals, key, sn, p, s, wantP, wantS))
+		}
+		if strings.Count(p, ixkey.Sep) < sn {
+			j := ixkey.JoinPrefixSuffix(p, sn, s)
+			t.Q(fmt.Sprintf("join %s %d %s", lib.X(p), sn, lib.X(s)), lib.X(j))
+			if sn < len(tv) && j != key {
+				t.Fail("split-join-exact", fmt.Sprintf("fields %q key %q n=%d → %q %q → %q", vals, key, sn, p, s, j))
+			}
+		} else if sn < len(tv) {
+			t.Fail("split-join-precondition", fmt.Sprintf("fields %q key %q n=%d: prefix %q has %d separators",
+				vals, key, sn, p, strings.Count(p, ixkey.Sep)))
+		}
+		// the same prefix is obtained from a short key with the same leading fields
+		if sn < len(tv) {
+			short := ixkey.CompKey(tv[:sn]...)
+			if p2, _ := ixkey.SplitPrefixSuffix(short, sn); p2 != p {
+				t.Fail("split-prefix-canonical", fmt.Sprintf("fields %q n=%d: long key prefix %q, short key prefix %q", vals, sn, p, p2))
+			}
+		}
+	}
+}
+
+var lowerAlphabet = []byte{'A', 'a', 'B', 'b', 'Z', 'z', '@', '[', 0, 0xff, 4, 'A', 'a'}
+
+// genLowerField: mostly packed strings (tag 4) over mixed-case letters and their neighbours
+func genLowerField(r *rand.Rand) string {
+	switch r.Intn(8) {
+	case 0:
+		return ""
+	case 1:
+		return genField(r) // not a packed string (PackedToLower / PackedCmpLower leave it alone)
+	}
+	b := make([]byte, 1+r.Intn(4))
+	b[0] = 4
+	for i := 1; i < len(b); i++ {
+		b[i] = lowerAlphabet[r.Intn(len(lowerAlphabet))]
+	}
+	return string(b)
+}
+
+func flipCase(s string) string {
+	b := []byte(s)
+	for i, c := range b {
+		if i > 0 && ('A' <= c && c <= 'Z' || 'a' <= c && c <= 'z') {
+			b[i] = c ^ 0x20
+		}
+	}
+	return string(b)
+}
+
+// lowerSection: specs with `_lower!` fields (negative field numbers), with and without the
+// secondary-field rule; records that agree up to case on the indexed fields are frequent.
+func lowerSection(t *lib.Trace, r *rand.Rand, n int) {
+	for c := 0; c < n/2; c++ {
+		nf := 1 + r.Intn(3)
+		nrec := nf + 1 + r.Intn(2)
+		perm := r.Perm(nrec)
+		fields := make([]int, nf)
+		nlower := 0
+		for j := range fields {
+			fields[j] = perm[j]
+			if r.Intn(3) != 0 {
+				fields[j] = -perm[j] - 2 // _lower!
+				nlower++
+			}
+		}
+		var fields2 []int
+		if r.Intn(2) == 0 {
+			fields2 = []int{perm[nf]} // a column that is not an indexed field
+		}
+		spec := &ixkey.Spec{Fields: fields, Fields2: fields2}
+		rec1 := make([]string, nrec)
+		rec2 := make([]string, nrec)
+		for j := range rec1 {
+			rec1[j] = genLowerField(r)
+			switch r.Intn(4) {
+			case 0:
+				rec2[j] = rec1[j]
+			case 1, 2:
+				rec2[j] = flipCase(rec1[j])
+			default:
+				rec2[j] = genLowerField(r)
+			}
+		}
+		if len(fields2) > 0 && r.Intn(2) == 0 { // equal up to case on Fields, different on Fields2
+			rec2[fields2[0]] = rec1[fields2[0]] + "x"
+		}
+		if r.Intn(8) == 0 {
+			for j := 0; j < nf; j++ {
+				rec1[perm[j]] = ""
+				if r.Intn(2) == 0 {
+					rec2[perm[j]] = ""
+				}
+			}
+		}
+		r1, r2 := mkrec(rec1), mkrec(rec2)
+		k1, k2 := spec.Key(r1), spec.Key(r2)
+		cmp := spec.Compare(r1, r2)
+		t.Q(fmt.Sprintf("keyl %s %s %s", lib.Ints(fields), lib.Ints(fields2), lib.Xs(rec1)), lib.X(k1))
+		t.Q(fmt.Sprintf("keyl %s %s %s", lib.Ints(fields), lib.Ints(fields2), lib.Xs(rec2)), lib.X(k2))
+		t.Q(fmt.Sprintf("cmpl %s %s %d %s %s", lib.Ints(fields), lib.Ints(fields2), nrec, lib.Xs(rec1), lib.Xs(rec2)),
+			fmt.Sprint(sign(cmp)))
+		t.Count(fmt.Sprintf("lower.nlower=%d.fields2=%v.cmp=%d", nlower, len(fields2) > 0, sign(cmp)))
+		if sign(strings.Compare(k1, k2)) != sign(cmp) {
+			t.Fail("key-order-lower", fmt.Sprintf("spec %v/%v recs %q %q: Compare=%d keys %q %q",
+				fields, fields2, rec1, rec2, cmp, k1, k2))
+		}
+		if sign(spec.Compare(r2, r1)) != -sign(cmp) {
+			t.Fail("compare-antisym", fmt.Sprintf("spec %v/%v recs %q %q", fields, fields2, rec1, rec2))
+		}
+		if c < 1 {
+			t.Sample(fmt.Sprintf("lower spec=%v/%v rec1=%q rec2=%q key1=%q key2=%q cmp=%d", fields, fields2, rec1, rec2, k1, k2, cmp))
+		}
+	}
 }
 
 // untrimmedKey is the composite key of vals with every field present
